@@ -427,10 +427,10 @@ impl PdfString {
             write!(out, r"(")?;
             for &b in self.data.as_slice() {
                 match b {
-                    b'\\' | b'(' | b')' => write!(out, r"\")?,
-                    _ => ()
+                    b'\\' | b'(' | b')' => out.write_all(&[b'\\', b])?,
+                    b'\r' => write!(out, r"\r")?,
+                    _ => out.write_all(&[b])?
                 }
-                out.write_all(&[b])?;
             }
             write!(out, r")")?;
         }
